@@ -511,7 +511,7 @@ func (f *Fn) NeverReaches(a Occ, bs []Occ) OrderResult {
 }
 
 // Between: every path from a to b passes one of xs.
-func (f *Fn) Between(a, b Occ, xs []Occ) OrderResult {
+func (f *Fn) Between(a, b Occ, xs []Occ, ex ...Excuse) OrderResult {
 	g := f.G()
 	avoid := map[int]bool{}
 	for _, x := range xs {
@@ -519,7 +519,7 @@ func (f *Fn) Between(a, b Occ, xs []Occ) OrderResult {
 			avoid[x.V] = true
 		}
 	}
-	p := g.pathAvoiding([]int{a.V}, func(v int) bool { return v == b.V }, avoid, false)
+	p := g.pathAvoidingE([]int{a.V}, func(v int) bool { return v == b.V }, avoid, false, g.excusedEdges(ex))
 	if p == nil {
 		return OrderResult{OK: true}
 	}
